@@ -38,10 +38,11 @@ TInitDflt ==
       IN  [par |-> [k \in e.pars |-> "$unk"], vec |-> [k \in e.vecs |-> <<"$unk">>]]]]
 
 \* the value oracle (MasaOracle): only consulted for evaluators the oracle defines
+\* (IF, not a disjunction: inside an action TLC explores every disjunct, it does not short-circuit)
 TEvalAccept(p, sol, par, vec, fn, sig, args, cb, ret) ==
-  \/ ~UseOracle
-  \/ Relaxed("VALUE")
-  \/ OracleAccept(p, sol, par, vec, fn, sig, args, cb, ret)
+  IF ~UseOracle \/ Relaxed("VALUE") THEN TRUE
+  ELSE IF \E k \in DOMAIN par : par[k] = "$unk" THEN TRUE      \* a default never observed: not judged
+  ELSE OracleAccept(p, sol, par, vec, fn, sig, args, cb, ret)
 
 \* args = <<scalars, direction index, number of index arguments, pair label>>; spatial gradient directions are
 \* 1..min(dimension, 3)
@@ -65,8 +66,7 @@ OutW(e) == [e EXCEPT !.tags = Range(e.tags), !.warn = Range(e.warn)]
 
 IsEvent(op) == l <= Len(Log) /\ Ev.op = op /\ l' = l + 1
 \* the hook counter must agree with the specification's heap after every call that returned or threw
-LiveBound(e) == \/ Relaxed("LIVE")
-                \/ e.live[1] = live'["d"] /\ e.live[2] = live'["ld"]
+LiveBound(e) == IF Relaxed("LIVE") THEN TRUE ELSE e.live[1] = live'["d"] /\ e.live[2] = live'["ld"]
 
 TInit      == IsEvent("init")    /\ M!Init(Ev.p, Ev.api, Ev.h, Ev.sc, Out(Ev))              /\ LiveBound(Ev)
 TSelect    == IsEvent("select")  /\ M!Select(Ev.p, Ev.api, Ev.h, Out(Ev))                   /\ LiveBound(Ev)
@@ -100,16 +100,18 @@ TEval      == IsEvent("eval")    /\ M!Eval(Ev.p, Ev.api, Ev.fn, Ev.sig, <<Ev.a, 
 
 \* "end": the script ran to completion; the process is still running, nothing changed
 TEnd == /\ IsEvent("end") /\ status = "run"
-        /\ Relaxed("LIVE") \/ (Ev.live[1] = live["d"] /\ Ev.live[2] = live["ld"])
+        /\ IF Relaxed("LIVE") THEN TRUE ELSE (Ev.live[1] = live["d"] /\ Ev.live[2] = live["ld"])
         /\ UNCHANGED <<reg, sel, live, status, dflt, memo, act>>
 \* "fini": after every static destructor ran, nothing the library allocated is left (C19)
 TFini == /\ IsEvent("fini")
-         /\ Relaxed("LIVE") \/ (Ev.live[1] = 0 /\ Ev.live[2] = 0)
+         /\ IF Relaxed("LIVE") THEN TRUE ELSE (Ev.live[1] = 0 /\ Ev.live[2] = 0)
          /\ UNCHANGED <<reg, sel, live, status, dflt, memo, act>>
 \* "reset": the next execution (a new process) starts here; what was learned about defaults stays
 TReset == /\ IsEvent("reset")
           /\ reg' = [p \in TPrec |-> <<>>] /\ sel' = [p \in TPrec |-> "$none"]
-          /\ live' = [p \in TPrec |-> 0] /\ status' = "run" /\ memo' = <<>>
+          /\ live' = [p \in TPrec |-> 0] /\ status' = "run"
+          \* purity holds across processes too: executions of one group share the memo
+          /\ memo' = IF "keep" \in DOMAIN Ev /\ Ev.keep THEN memo ELSE <<>>
           /\ act' = [name |-> "start"] /\ UNCHANGED dflt /\ pairs' = <<>>
 
 TNext == \/ TEval
